@@ -520,10 +520,56 @@ func (e *Engine) step(st *State, in ssa.Instruction) bool {
 		return e.chanSelect(st, x)
 	case *ssa.SliceToArrayPointer:
 		s := e.val(st, x.X).(SliceVal)
+		n := int(x.Type().Underlying().(*types.Pointer).Elem().Underlying().(*types.Array).Len())
 		if s.Obj == 0 {
+			if n != 0 {
+				unsup("SliceToArrayPointer of a nil slice")
+			}
 			fr.locals[x] = nilPtr
-		} else {
-			unsup("SliceToArrayPointer")
+			fr.pc++
+			break
+		}
+		if !s.Off.K || !s.Len.K {
+			unsup("SliceToArrayPointer with symbolic bounds")
+		}
+		off, ln := int(s.Off.I.Int64()), int(s.Len.I.Int64())
+		if ln < n {
+			e.doPanic(st, OpaqueVal{"slice too short for array conversion"}, "panic: cannot convert slice to array", "runtime")
+			return true
+		}
+		onlyLoads := true
+		for _, r := range *x.Referrers() {
+			if u, ok := r.(*ssa.UnOp); !ok || u.Op != token.MUL {
+				onlyLoads = false
+			}
+		}
+		switch b := e.backing(st, s.Obj).(type) {
+		case ArrayVal:
+			if off == 0 && len(b.E) == n {
+				fr.locals[x] = PtrVal{Obj: s.Obj}
+			} else if onlyLoads {
+				fr.locals[x] = PtrVal{Obj: st.newObj(ArrayVal{E: append([]Value(nil), b.E[off:off+n]...)}, nil)}
+			} else {
+				unsup("SliceToArrayPointer into the middle of an array")
+			}
+		case SymArrVal:
+			if off == 0 && b.N.K && int(b.N.I.Int64()) == n {
+				fr.locals[x] = PtrVal{Obj: s.Obj}
+			} else if onlyLoads {
+				c := make([]*Term, n)
+				for i := 0; i < n; i++ {
+					t, ok := e.selectArr(b, KInt64(int64(off+i))).(*Term)
+					if !ok {
+						unsup("SliceToArrayPointer element")
+					}
+					c[i] = t
+				}
+				fr.locals[x] = PtrVal{Obj: st.newObj(SymArrVal{N: KInt64(int64(n)), Elem: b.Elem, C: c}, nil)}
+			} else {
+				unsup("SliceToArrayPointer into the middle of an array")
+			}
+		default:
+			unsup("SliceToArrayPointer on %s", describe(b))
 		}
 		fr.pc++
 	default:
